@@ -303,6 +303,17 @@ def case_twin_scenario():
     acts.append(["act", 1, {"verb": "KILL", "nick": "Root", "comment": "not an operator"}])
     acts.append(["act", 2, {"verb": "KILL", "nick": "ROOT", "comment": "by the operator"}])
     acts.append(["act", 1, {"verb": "LUSERS"}])
+    # a NICK onto the twin's exact spelling is a NICK onto a nickname in use (433); a change of letter case to a free
+    # spelling is an ordinary rename - the counters and presence answers stay true either way
+    acts.append(["act", 2, {"verb": "MODE", "target": "Root", "modes": [["+i", []]]}])
+    acts.append(["act", 1, {"verb": "NICK", "nick": "Root"}])
+    acts.append(["act", 4, {"verb": "LUSERS"}])
+    acts.append(["act", 4, {"verb": "ISON", "nicks": ["root", "Root", "ROOT", "al", "AL"]}])
+    acts.append(["act", 4, {"verb": "NICK", "nick": "AL"}])
+    acts.append(["act", 2, {"verb": "NICK", "nick": "root"}])
+    acts.append(["act", 1, {"verb": "ISON", "nicks": ["root", "Root", "ROOT", "al", "AL"]}])
+    acts.append(["act", 1, {"verb": "USERHOST", "nicks": ["root", "Root", "al", "AL"]}])
+    acts.append(["act", 1, {"verb": "LUSERS"}])
     return {"engine": "e1", "variant": {"preconf": False}, "actions": acts}
 
 
